@@ -62,6 +62,36 @@ fn spec_of(unis: &[MapUniverse], offsets: &[u64], idx: u64) -> MapSpec {
     unis[ui].spec(idx - offsets[ui])
 }
 
+/// Extra cases behind the grammar universes: the four fixtures, windows of 48 of their objects, and every motif of 3
+/// objects over a narrow alphabet (circle / slider, two hit sounds) repeated 4 times.
+fn extra_cases() -> Vec<(String, rosu_pp::Beatmap)> {
+    let mut v = Vec::new();
+    for (path, _) in vh::gen::fixture_paths() {
+        if let Ok(m) = rosu_pp::Beatmap::from_path(path) {
+            let n = m.hit_objects.len();
+            v.push((format!("fixture {path}"), m));
+            for start in (0..n).step_by(96) {
+                if let Some(w) = vh::gen::fixture_window(path, start, 48) {
+                    v.push((format!("fixture {path} objects {start}..{}", start + 48), w));
+                }
+            }
+        }
+    }
+    for mode in 0..4u8 {
+        let alpha = if mode == 3 {
+            vh::gen::Alphabet::product(&[Kind::Circle, Kind::Hold(300)], &[0, 125], &[PosK::Same], &[0], &[0, 2])
+        } else {
+            vh::gen::Alphabet::product(&[Kind::Circle, Kind::Slider2], &[125], &[PosK::Far], &[0, 8], &[0])
+        };
+        let base = alpha.count_upto(2);
+        for i in base..alpha.count_upto(3) {
+            let spec = MapSpec { repeat: 4, diff: vh::gen::DiffPreset::D4, ..MapSpec::new(mode, alpha.seq(i, 3)) };
+            v.push((spec.describe(), spec.decode()));
+        }
+    }
+    v
+}
+
 fn main() {
     let args: Vec<String> = std::env::args().collect();
     let tier_arg = args.iter().position(|a| a == "--tier").and_then(|p| args.get(p + 1)).map_or("quick", String::as_str);
@@ -80,9 +110,9 @@ fn main() {
         }
         let out = std::io::stdout();
         let mut o = out.lock();
-        for idx in a..b.min(total) {
-            let spec = spec_of(&unis, &offsets, idx);
-            let map = spec.decode();
+        let extras = extra_cases();
+        for idx in a..b.min(total + extras.len() as u64) {
+            let map = if idx < total { spec_of(&unis, &offsets, idx).decode() } else { extras[(idx - total) as usize].1.clone() };
             let d = std::panic::catch_unwind(|| battery::run(&map, &setts(), &keymods(), 10_000, &|| {}, true)).unwrap_or(0xdead_dead_dead_dead);
             let _ = writeln!(o, "{idx} {d}");
         }
@@ -107,6 +137,17 @@ fn main() {
         offsets.push(total);
         total += u.total;
     }
+    let extras = extra_cases();
+    let grammar_total = total;
+    let total = total + extras.len() as u64;
+    let describe = |idx: u64| -> String {
+        if idx < grammar_total {
+            let spec = spec_of(&unis, &offsets, idx);
+            format!("spec={}\n--- .osu ---\n{}", spec.describe(), spec.text())
+        } else {
+            format!("extra case: {}", extras[(idx - grammar_total) as usize].0)
+        }
+    };
     let (lo, hi) = match &ctx.replay {
         Some((_, i)) => (*i, *i + 1),
         None => (0, total),
@@ -149,12 +190,11 @@ fn main() {
                     let (idx, d0) = outs[0][k];
                     for (vi, o) in outs.iter().enumerate().skip(1) {
                         if o[k] != (idx, d0) {
-                            let spec = spec_of(&unis, &offsets, idx);
                             ctx.add_violation(Violation {
                                 class: format!("differs_{}", VARIANTS[vi].replace('+', "_")),
                                 universe: "feature-variants".into(),
                                 idx,
-                                msg: format!("digest of the default build {d0:x} != digest {:x} of the build with features [{}]\nspec={}\n--- .osu ---\n{}", o[k].1, VARIANTS[vi], spec.describe(), spec.text()),
+                                msg: format!("digest of the default build {d0:x} != digest {:x} of the build with features [{}]\n{}", o[k].1, VARIANTS[vi], describe(idx)),
                             });
                             break;
                         }
@@ -166,23 +206,21 @@ fn main() {
                 done.fetch_add(b - a, Ordering::Relaxed);
                 ctx.add_counts(b - a, 4 * (b - a), 4 * (b - a), b - a);
                 if a == lo {
-                    let spec = spec_of(&unis, &offsets, a);
                     let mut o = J::obj();
                     o.set("universe", J::s("feature-variants"));
                     o.set("index", J::i(a));
-                    o.set("map_spec", J::s(spec.describe()));
+                    o.set("map", J::s(describe(a).lines().next().unwrap_or("").to_owned()));
                     o.set("digests", J::s(format!("{:x?}", outs.iter().map(|v| v[0].1).collect::<Vec<_>>())));
                     ctx.add_sample(o);
                 }
             });
         }
     });
-    ctx.note_universe("feature-variants", UniverseStat { total, done: done.load(Ordering::Relaxed), capped: false, note: format!("4 builds x {} map universes: {}", unis.len(), unis.iter().map(|u| u.name.clone()).collect::<Vec<_>>().join(", ")) });
-    let mid = spec_of(&unis, &offsets, total - 1);
+    ctx.note_universe("feature-variants", UniverseStat { total, done: done.load(Ordering::Relaxed), capped: false, note: format!("4 builds x {} grammar universes + {} extra cases (fixtures, fixture windows, 3-object motifs x4): {}", unis.len(), extras.len(), unis.iter().map(|u| u.name.clone()).collect::<Vec<_>>().join(", ")) });
     let mut o = J::obj();
     o.set("universe", J::s("feature-variants"));
     o.set("index", J::i(total - 1));
-    o.set("map_spec", J::s(mid.describe()));
+    o.set("map", J::s(describe(total - 1).lines().next().unwrap_or("").to_owned()));
     ctx.add_sample(o);
     ctx.finish();
 }
